@@ -146,23 +146,30 @@ def validateControls (w : World) (oid cid : Nat) (kind : PackKind) : World × Op
   if counterSafe k c.txLimit then (w, none)
   else (w.orderViolation oid "Max Transaction Count", some .transactionCount)
 
+/-- `BaseOrderPackage.calc_simulated_delay`: latency of the kind, plus the bet delay for PLACE / REPLACE -/
+def delayOf (cfg : Config) (kind : PackKind) (betDelay : Rat) : Rat :=
+  match kind with
+  | .place => cfg.placeLatency + betDelay
+  | .cancel => cfg.cancelLatency
+  | .update => cfg.updateLatency
+  | .replace => cfg.replaceLatency + betDelay
+
+/-- one package appended to the simulation's handler queue (`process_order_package`) -/
+def addPackage (kind : PackKind) (t : Txn) (d bd : Rat) (w : World) (vc : Option Int × List Nat) : World :=
+  { w with
+    queue := w.queue ++ [{ id := w.nextPackage, kind := kind, market := t.market, orders := vc.2, created := w.clock,
+                           delay := d, client := t.client, marketVersion := vc.1, betDelay := bd }],
+    nextPackage := w.nextPackage + 1 }
+
+/-- the (market version, chunk) pairs `_create_order_package` turns into packages -/
+def packsOf (pend : List (Nat × Option Int)) (kind : PackKind) : List (Option Int × List Nat) :=
+  (groupByVersion pend).flatMap fun (v, os) => (chunks os (packLimit kind)).map fun ch => (v, ch)
+
 /-- `Transaction._create_order_package` + `flumine.process_order_package` (simulation: append to the
-    handler queue) -/
+    handler queue); the bet delay is the one of the market's current book -/
 def createPackages (w : World) (t : Txn) (pend : List (Nat × Option Int)) (kind : PackKind) : World :=
-  let book := ((w.market! t.market).book).getD {}
-  let latency := match kind with
-    | .place => w.cfg.placeLatency + book.betDelay
-    | .cancel => w.cfg.cancelLatency
-    | .update => w.cfg.updateLatency
-    | .replace => w.cfg.replaceLatency + book.betDelay
-  let groups := groupByVersion pend
-  let packs : List (Option Int × List Nat) :=
-    groups.flatMap fun (v, os) => (chunks os (packLimit kind)).map fun ch => (v, ch)
-  packs.foldl (fun w (v, ch) =>
-    { w with
-      queue := w.queue ++ [{ id := w.nextPackage, kind := kind, market := t.market, orders := ch, created := w.clock,
-                             delay := latency, client := t.client, marketVersion := v, betDelay := book.betDelay }],
-      nextPackage := w.nextPackage + 1 }) w
+  let bd := (((w.market! t.market).book).getD {}).betDelay
+  (packsOf pend kind).foldl (addPackage kind t (delayOf w.cfg kind bd) bd) w
 
 /-- `Transaction.execute()` -/
 def txnExecute (w : World) (t : Txn) : World × Txn :=
